@@ -27,6 +27,7 @@ TSkip    == l <= Len(Log) /\ Log[l].ev \in Skipped /\ l' = l + 1 /\ UNCHANGED va
 TEnvPod  == IsEv("env_pod") /\ LET x == Log[l] IN EnvPod(x.p, [api |-> x.api, loc |-> x.loc, sticky |-> x.sticky, cached |-> x.cached])
 TDetach  == IsEv("env_detach") /\ EnvDetach(Log[l].e)
 TApiErr  == IsEv("env_apierr") /\ EnvApiErr(Log[l].on)
+TDisturb == IsEv("env_disturb") /\ EnvDisturb
 TCloud   == IsEv("cl_end") /\ LET x == Log[l] IN IF x.e = 0 \/ x.err THEN UNCHANGED vars ELSE CloudEnd(x.k, x.e, Rng(x.as))   \* a failed call of the fake has no effect
 TCall    == IsEv("rpc_call") /\ LET x == Log[l] IN RpcCall(x.r, x.k, x.p, x.c)
 TGetPod  == IsEv("k8s_getpod") /\ LET x == Log[l] IN GetPod(x.r, x.found, x.sticky)
@@ -46,7 +47,7 @@ TRestart == IsEv("restart") /\ LET x == Log[l] IN Restart(DiskOf(x.disk), DiskOf
 TProbe   == IsEv("probe") /\ LET x == Log[l] IN Probe(DiskOf(x.disk), OwnOf(x.own), x.adds)
 
 TInit == Init /\ l = 1
-TNext == TReset \/ TSkip \/ TEnvPod \/ TDetach \/ TApiErr \/ TCloud \/ TCall \/ TGetPod \/ TPutB \/ TDelB \/ TWrEnd
+TNext == TReset \/ TSkip \/ TEnvPod \/ TDetach \/ TApiErr \/ TDisturb \/ TCloud \/ TCall \/ TGetPod \/ TPutB \/ TDelB \/ TWrEnd
          \/ TRawPut \/ TRawDel \/ TRet \/ TGcCall \/ TLocal \/ TExist \/ TGcRet \/ TObs \/ TCrash \/ TRestart \/ TProbe
 TSpec == TInit /\ [][TNext]_<<vars, l>>
 
